@@ -30,10 +30,10 @@ Print Assumptions C13_pointwise.
    T::Value with T:=A is A::Value, but after renaming T to al it is A::VAue. *)
 Definition plain (ns : list string) (n : string) := TPlain (Typename ns (NStr n) []) false PNone false.
 Definition tA := Typename [] (NStr "A") [].
-Theorem C13_refuted_alpha : forall q, q_scoped_substring q = true ->
+Theorem C13_refuted_alpha : forall q, q_scoped_substring q = true -> q_first_level_only q = true ->
   ty_cpp (inst_type q ["T"] [tA] None None (plain ["T"] "Value")) = "A::Value" /\
   ty_cpp (inst_type q ["al"] [tA] None None (plain ["al"] "Value")) = "A::VAue".
-Proof. intros [qa qb qc] Hq. cbn in Hq. subst qb. vm_compute. split; reflexivity. Qed.
+Proof. intros [qa qb qc qd] Hq Hd. cbn in Hq, Hd. subst qb qd. vm_compute. split; reflexivity. Qed.
 Print Assumptions C13_refuted_alpha.
 
 (* on the domain of C02 the result is the substitution, which mentions parameters only through
@@ -41,13 +41,13 @@ Print Assumptions C13_refuted_alpha.
 Theorem C13_alpha_partial : forall q tn1 tn2 insts cpp icls this_cpp t1 t2,
   length tn1 = length insts -> length tn2 = length insts ->
   C02.this_ok cpp icls this_cpp ->
-  dom_ty tn1 insts t1 = true -> dom_ty tn2 insts t2 = true ->
+  dom_q q tn1 insts t1 = true -> dom_q q tn2 insts t2 = true ->
   subst_cpp tn1 insts this_cpp t1 = subst_cpp tn2 insts this_cpp t2 ->
   ty_cpp (inst_type q tn1 insts cpp icls t1) = ty_cpp (inst_type q tn2 insts cpp icls t2).
 Proof.
   intros q tn1 tn2 insts cpp icls this_cpp t1 t2 L1 L2 Ht D1 D2 E.
-  rewrite (inst_type_refines q tn1 insts cpp icls this_cpp L1 Ht t1 D1).
-  rewrite (inst_type_refines q tn2 insts cpp icls this_cpp L2 Ht t2 D2).
+  rewrite (inst_type_refines_q q tn1 insts cpp icls this_cpp L1 Ht t1 D1).
+  rewrite (inst_type_refines_q q tn2 insts cpp icls this_cpp L2 Ht t2 D2).
   exact E.
 Qed.
 Print Assumptions C13_alpha_partial.
